@@ -138,8 +138,12 @@ def check_leaves(ctx, led, v, rule):
                 if n.args and isinstance(n.args[0], ast.Constant):
                     sites.append((fn, n, n.args[0].value))
                 else:
-                    raise AnalysisError(rule, "get_value called with a non-literal key", n, om.module)
-    keys = sorted(set(k for _, _, k in sites))
+                    sites.append((fn, n, None))
+    keys = set(k for _, _, k in sites if k is not None)
+    if any(k is None for _, _, k in sites):
+        # a call with a computed key (e.g. a loop over a literal tuple): check every weighted metric
+        keys |= set(W) | set(m for m, b in spec.get("modified_of", {}).items() if b in W)
+    keys = sorted(keys)
     led.count("get_value_call_sites", len(sites))
     n = 0
     if v == 2:
